@@ -53,7 +53,9 @@ def gen_case(rng):
     if rng.random() < 0.2:   # symmetric stack
         angles = angles + angles[::-1]
     offset = rng.choice([0., 0., rng.choice([-1, 1]) * rng.choice([0.125, 0.5, 1e-3]), rng.uniform(-2, 2) * 1e-3])
-    tscale = rng.choice([0.125e-3, 1., 0.25])
+    tscale = rng.choice([0.125e-3, 1., 0.25, 0.125e-3, 1.25e-6, 2e-7])      # m, mm, and micrometre-thin plies in m
+    if tscale < 1e-5:
+        offset = rng.choice([0., 0., rng.uniform(-2, 2) * tscale])
     case = dict(stack=angles, offset=offset, plyt=None, laminaprop=None, plyts=[], laminaprops=[])
     if rng.random() < 0.5:
         case['plyt'] = tscale * rng.choice([1., rng.uniform(0.5, 2)])
